@@ -5,6 +5,9 @@ output line): the implementation line and the model line must be equal (correspo
 getter of every field, GetAndSet observations, error class, raw dump of the bucket tree, encoded
 compound key bytes); every token of the spec line (what the property demands to be read back) must
 occur among the implementation's tokens.
+
+Case kinds: k / d / j compound keys, e entity scripts on one TypedBucket, h entity writes through derived
+contexts (GetParentContext / WithFieldOverrides / GetOrCreatePath) on a real parent / child store pair.
 """
 import hashlib
 import re
@@ -44,6 +47,20 @@ THEOREMS = [
     "persist_selected_reads_back",
     "mapped_checker_selects",
     "reserved_key_breaks_roundtrip",
+    "list_key_order_below_256",
+    "list_key_order_breaks_at_256",
+    "cursor_walk_breaks_roundtrip",
+    "parent_context_inherits",
+    "checker_restricts_parent_context",
+    "checker_restricts_any_context",
+    "derived_write_touches_only_its_entry",
+    "shared_error_stops_family",
+    "overrides_on_context",
+    "getOrCreatePath_touches_only_path",
+    "nested_bucket_own_holder",
+    "derived_writes_touch_only_selected",
+    "child_store_write_keeps_unselected_parent_field",
+    "child_store_write_keeps_unselected_child_field",
 ]
 
 RULE = ("compound keys: every list of <=3 elements over a 7-string pool, every pair of lists of <=2 elements "
@@ -55,7 +72,15 @@ RULE = ("compound keys: every list of <=3 elements over a 7-string pool, every p
         "thorough tier) with nulls and empty containers, one injected refusal per case (empty key, unsupported "
         "type, reserved list-size key, 32768/32769-byte keys, nested value under allowNested=false), a field "
         "written twice with every pair of kinds; field checkers: two 8-field entities x all 256 subsets with "
-        "partial pre-state, random entities with random subsets, unknown names, field overrides, nil checker. "
+        "partial pre-state, random entities with random subsets, unknown names, field overrides, nil checker; "
+        "context derivation (h): a real parent/child store pair, the parent part written through GetParentContext "
+        "and the child part through the context under every one of the 128 subsets of their 7 fields (3 entities, "
+        "30 thorough), random scripts of blocks through ctx / GetParentContext / GetOrCreatePath below either, "
+        "WithFieldOverrides on either, same field name in both buckets, refused nested paths, multi-level child "
+        "paths, a store without parent; sizes: lists / maps / string lists / compound keys of 255, 256, 257, 258, "
+        "300, 511, 512, 513, 1000 elements (to 4097 thorough) top level, nested, over a longer / shorter "
+        "predecessor, pairwise distinct elements; keys / elements / field names of 126..129, 254..257, 16383, "
+        "16384 bytes. "
         "non-trivial = the spec demands at least one read value (entity scripts) / the list is non-empty "
         "(compound keys); distinct = distinct case line")
 
@@ -86,7 +111,7 @@ def nontrivial(case, impl, spec):
         if len(case) > 2:
             return hashlib.blake2b(case.encode(), digest_size=8).digest()
         return None
-    if k == "e":
+    if k in ("e", "h"):
         if spec not in ("-", "", None) and len(_toks(spec)) >= 2:
             return hashlib.blake2b(case.encode(), digest_size=8).digest()
     return None
@@ -99,7 +124,8 @@ def _clip(s, n=400):
 def describe(case, impl, model, spec):
     k = kind_of(case)
     d = {"kind": {"k": "EncodeStringSlice+DecodeStringSlice", "d": "DecodeStringSlice", "j": "encoding equality",
-                  "e": "TypedBucket entity script"}.get(k, k),
+                  "e": "TypedBucket entity script",
+                  "h": "entity write through derived contexts (parent/child stores)"}.get(k, k),
          "case": _clip(case, 1500), "impl": _clip(impl, 1500), "model": _clip(model, 1500), "spec": _clip(spec or "", 800)}
     if spec and not spec_ok(impl, spec):
         d["demanded_but_not_read_back"] = [_clip(t, 300) for t in missing(impl, spec)[:6]]
@@ -117,7 +143,8 @@ MATCHERS = {}
 def histogram(lines, impl):
     h = {"kinds": {}, "ops": {}, "checker": {"nil": 0, "subset": 0, "with_overrides": 0}, "errors": {},
          "max_nesting": {}, "compound_max_elem_len": {"<=127": 0, "128..4095": 0, "4096": 0, ">4096": 0},
-         "reads_that_panic": 0}
+         "reads_that_panic": 0, "largest_container": {"<=16": 0, "17..255": 0, "256": 0, "257..1000": 0, ">1000": 0},
+         "derived_context_blocks": {"own": 0, "parent": 0, "nested": 0, "with_overrides": 0}}
     for c, a in zip(lines, impl):
         f = c.split(" ")
         h["kinds"][f[0]] = h["kinds"].get(f[0], 0) + 1
@@ -125,6 +152,21 @@ def histogram(lines, impl):
             m = max([0] + [0 if w == "-" else len(w) // 2 for w in f[1:]])
             b = "<=127" if m <= 127 else "128..4095" if m < 4096 else "4096" if m == 4096 else ">4096"
             h["compound_max_elem_len"][b] += 1
+        elif f[0] == "h":
+            h["checker"]["nil" if f[2] == "c=-" else "subset"] += 1
+            for t in f[3:]:
+                if t.startswith("@"):
+                    b = h["derived_context_blocks"]
+                    b["parent" if t[2] == "^" else "own"] += 1
+                    if "/" in t:
+                        b["nested"] += 1
+                    if "~" in t:
+                        b["with_overrides"] += 1
+                else:
+                    code = t.split(":", 1)[0]
+                    h["ops"][code] = h["ops"].get(code, 0) + 1
+            e = a.split(" ", 1)[0]
+            h["errors"][e] = h["errors"].get(e, 0) + 1
         elif f[0] == "e":
             if f[1] == "c=-":
                 h["checker"]["nil"] += 1
@@ -133,7 +175,10 @@ def histogram(lines, impl):
             if f[2] != "m=-":
                 h["checker"]["with_overrides"] += 1
             depth = 0
+            big = 0
             for op in f[3:]:
+                if len(op) > 600:
+                    big = max(big, max((seg.count(",") + 1 for seg in re.split(r"[ML]\(", op)), default=0))
                 code = op.split(":", 1)[0][1:]
                 h["ops"][code] = h["ops"].get(code, 0) + 1
                 v = op.rsplit(":", 1)[-1]
@@ -146,6 +191,8 @@ def histogram(lines, impl):
                         cur -= 1
                 depth = max(depth, d)
             h["max_nesting"][str(depth)] = h["max_nesting"].get(str(depth), 0) + 1
+            lb = "<=16" if big <= 16 else "17..255" if big <= 255 else "256" if big == 256 else "257..1000" if big <= 1000 else ">1000"
+            h["largest_container"][lb] += 1
             e = a.split(" ", 1)[0]
             h["errors"][e] = h["errors"].get(e, 0) + 1
             if "=panic" in a:
@@ -165,13 +212,29 @@ def _variants(case):
             out.append(" ".join(f[:2] + ["m=-"] + ops))
         if f[1] not in ("c=-",):
             out.append(" ".join([f[0], "c=-"] + f[2:]))
+    elif f[0] == "h":
+        toks = f[3:]
+        for i in range(len(toks)):
+            if toks[i].startswith("@"):
+                # drop a whole block
+                j = i + 1
+                while j < len(toks) and not toks[j].startswith("@"):
+                    j += 1
+                out.append(" ".join(f[:3] + toks[:i] + toks[j:]))
+                if "~" in toks[i]:
+                    out.append(" ".join(f[:3] + toks[:i] + [toks[i].split("~")[0]] + toks[i + 1:]))
+            else:
+                out.append(" ".join(f[:3] + toks[:i] + toks[i + 1:]))
+        if f[2] != "c=-":
+            out.append(" ".join(f[:2] + ["c=-"] + toks))
+        out = [v for v in out if len(v.split(" ")) >= 4 and v.split(" ")[3].startswith("@")]
     elif f[0] in ("k", "j"):
         for i in range(1, len(f)):
             if f[i] != "|":
                 out.append(" ".join(f[:i] + f[i + 1:]))
                 if f[i] != "-" and len(f[i]) > 2:
                     out.append(" ".join(f[:i] + [f[i][:len(f[i]) // 4 * 2] or "-"] + f[i + 1:]))
-    return [v for v in out if v != case and len(v.split(" ")) >= (3 if f[0] == "e" else 1)]
+    return [v for v in out if v != case and len(v.split(" ")) >= (3 if f[0] in ("e", "h") else 1)]
 
 
 def shrink(ctx, case, failing):
